@@ -186,6 +186,8 @@ func C02(p *an.Prog, r *an.Report) {
 	c02Counts(p, r)
 	c02SigTypeSource(p, r, "C02.L5")
 	c01DistinctElements(p, r, "C02.L7") // a list of N encoded elements is read as N distinct elements
+	c15TimeScaling(p, r, "C02.L9")      // 8-byte dates carry the constructor's instant to the millisecond (same rule as C15.A7)
+	c01Block(p, r, "C02.L8")            // key alignment inside the 384-byte key block, writer and all readers, every size pair
 	c11Threshold(p, r)                  // L6 (same rule as C11.M5): every well-formed final pair, down to 4 bytes, is read
 
 	// L3
